@@ -107,14 +107,14 @@ def _degenerate(es, ns):
     return False
 
 
-def rand_case(rng, kind=None):
+def rand_case(rng, kind=None, amp=None):
     kind = kind or rng.choice(["trend", "trend", "spline", "spline", "vector", "knn-mean", "knn-median", "linear", "cubic",
                                "knn-max", "chain-trend-knn", "chain-knnmax-trend", "vector-trend"])
     n = rng.choice([6, 8, 9, 10, 12])
     es, ns = pts(rng, n)
     while ((kind.startswith("knn") or "knn" in kind) and _has_ties(es, ns, at_data=kind.startswith("chain"))) or (kind in ("linear", "cubic") and _degenerate(es, ns)):
         es, ns = pts(rng, n)
-    amp = rng.choice([1.0, 1.0, 1.0, 0.001, 12500.0])      # data in other units (mm .. large counts): invariances do not depend on the data's amplitude
+    amp = amp or rng.choice([1.0, 1.0, 1.0, 0.001, 12500.0])      # data in other units (mm .. large counts): invariances do not depend on the data's amplitude
     d1 = [float(rng.randint(-20, 20)) * amp for _ in range(n)]
     d2 = [float(rng.randint(-20, 20)) * amp for _ in range(n)]
     w = [float(rng.randint(1, 5)) for _ in range(n)] if (kind in ("trend", "spline", "vector") and rng.random() < 0.5) else None
@@ -135,8 +135,11 @@ def rand_case(rng, kind=None):
 def corpus():
     import random
     rng = random.Random(4)
-    return [rand_case(rng, k) for k in ["trend", "spline", "vector", "knn-mean", "knn-median", "linear", "cubic",
-                                        "knn-max", "chain-trend-knn", "chain-knnmax-trend", "vector-trend"]]
+    cs = [rand_case(rng, k, 1.0) for k in ["trend", "spline", "vector", "knn-mean", "knn-median", "linear", "cubic",
+                                           "knn-max", "chain-trend-knn", "chain-knnmax-trend", "vector-trend"]]
+    # families exercised on EVERY run: every kind also with data of large and of tiny amplitude
+    cs += [rand_case(rng, k, a) for a in (12500.0, 0.001) for k in ("cubic", "linear", "spline", "trend", "knn-median", "vector")]
+    return cs
 
 
 def generate(rng, tier):
